@@ -283,6 +283,21 @@ pub fn lane_structure_canister(ctx: &mut Ctx) {
         let w = rng.chance(1, 2);
         let valid = valid_block(n, &mut rng, w);
         world::reset(&world::WorldCfg::new(Network::Regtest, 100));
+        // half of the cases: the (valid) header was announced earlier by the block source, the way
+        // a response's `next` list does; the bodies offered afterwards must be judged all the same
+        if rng.chance(1, 2) {
+            let hdr = gen::block_bytes(&valid)[..80].to_vec();
+            world::set_replies(vec![world::reply_complete(vec![], vec![hdr])]);
+            for _ in 0..2 {
+                let _ = world::heartbeat();
+            }
+            let want_hash = gen::hash_of(&valid);
+            if world::bookkeeping().next_by_hash.iter().any(|(b, _, _)| b.to_vec() == want_hash.to_vec()) {
+                ctx.cov.count("c12_cases_with_header_announced_first");
+            } else {
+                ctx.inconclusive("the header announced through `next` was not recorded".into());
+            }
+        }
         for m in mutants(&valid, &mut rng).into_iter().chain(std::iter::once(Mutant { family: "valid", block: valid.clone(), keeps_root: None })) {
             let bytes = gen::block_bytes(&m.block);
             let want = reference_verdict(&bytes);
